@@ -1494,6 +1494,22 @@ fn render_solve(o: &SolveOut, sfx: &str) -> String {
 fn run_solve(r: &Req) -> String {
     let p = parse_prob(r);
     let st = Sets::parse(r);
+    if r.has("flip") {
+        // settings fields that are consumed at construction (equilibrate_enable, presolve_enable)
+        // are changed on the built object before solve(): the data were equilibrated / reduced by
+        // `new`, so the returned point must still be mapped back with the stored scalings (the
+        // crate's own tests edit `solver.settings` after `new`)
+        let mut solver = DefaultSolver::new(&p.P, &p.q, &p.A, &p.b, &p.cones, st.to_settings());
+        let f = r.u("flip");
+        if f & 1 == 1 {
+            solver.settings.equilibrate_enable = !solver.settings.equilibrate_enable;
+        }
+        if f & 2 == 2 {
+            solver.settings.presolve_enable = !solver.settings.presolve_enable;
+        }
+        let (o, _ev) = solve_once(&mut solver);
+        return render_solve(&o, "");
+    }
     let (o, _solver, _ev) = solve_problem(&p, &st);
     render_solve(&o, "")
 }
@@ -2295,7 +2311,12 @@ pub fn random_sets(s: &mut Session) -> Sets {
 }
 
 pub fn submit_solve(s: &mut Session, p: &Prob, st: &Sets, check: &str) -> String {
-    let l = st.put(put_prob(Line::new("solve"), p)).s("check", check);
+    let mut l = st.put(put_prob(Line::new("solve"), p)).s("check", check);
+    if s.rng.bool(0.15) {
+        let f = 1 + s.rng.below(3);
+        l = l.u("flip", f);
+        s.count(&format!("solve:settings-flipped-after-new:{}", f));
+    }
     let out = s.submit(l.done());
     if out.starts_with("panic") {
         s.note(format!("solve panicked (subject of C04, not judged here): {} | cones={} n={} m={} method={} eq={} sreg={} dreg={}",
